@@ -8,17 +8,219 @@ package vsync
 
 import (
 	"fmt"
-	"sync"
 
 	"go.lstv.dev/util/internal/vsim/sched"
 )
 
-// Pool and Map are the real ones: they hold no property-relevant state here, and their
-// use disables the happens-before invariant (see the static scan).
-type (
-	Pool = sync.Pool
-	Map  = sync.Map
-)
+// Pool simulates sync.Pool deterministically: which pooled item a Get returns, and whether the
+// pool "forgets" its items (the real one may drop them at any time), is the tape's choice.
+// A Put synchronizes before the Get that returns the same item.
+type Pool struct {
+	New   func() interface{}
+	st    objState
+	items []poolItem
+	plain []interface{}
+}
+
+type poolItem struct {
+	v  interface{}
+	vc []uint32
+}
+
+func (p *Pool) sync(s *sched.Sim) {
+	if p.st.fresh(s) {
+		p.items = nil
+	}
+}
+
+// Get returns a pooled item or a new one.
+func (p *Pool) Get() interface{} {
+	s := sched.Cur
+	if s == nil || s.Aborted() {
+		if n := len(p.plain); n > 0 && s == nil {
+			v := p.plain[n-1]
+			p.plain = p.plain[:n-1]
+			return v
+		}
+		if p.New != nil {
+			return p.New()
+		}
+		return nil
+	}
+	p.sync(s)
+	s.Yield(sched.KOther, p.st.id)
+	if s.Aborted() {
+		if p.New != nil {
+			return p.New()
+		}
+		return nil
+	}
+	if n := len(p.items); n > 0 {
+		if s.Tape.Bool(1, 4) {
+			// legal behaviour of the real pool: items vanish (GC, per-P caches)
+			s.Faults.Inc("pool_miss_injected")
+		} else {
+			i := s.Tape.Choose(n)
+			it := p.items[i]
+			p.items = append(p.items[:i], p.items[i+1:]...)
+			sched.JoinVC(s.CurTask().VC, it.vc)
+			return it.v
+		}
+	}
+	if p.New != nil {
+		return p.New()
+	}
+	return nil
+}
+
+// Put adds x to the pool.
+func (p *Pool) Put(x interface{}) {
+	s := sched.Cur
+	if s == nil {
+		p.plain = append(p.plain, x)
+		return
+	}
+	if s.Aborted() {
+		return
+	}
+	p.sync(s)
+	me := s.CurTask()
+	vc := append([]uint32(nil), me.VC...)
+	me.VC[me.ID]++
+	p.items = append(p.items, poolItem{x, vc})
+	s.Yield(sched.KOther, p.st.id)
+}
+
+// Map simulates sync.Map with deterministic iteration order (insertion order). Every
+// operation is atomic and, conservatively, synchronizes with every earlier operation on the
+// same map (more happens-before edges than Go promises: never a false alarm).
+type Map struct {
+	st   objState
+	keys []interface{}
+	vals []interface{}
+	vc   []uint32
+}
+
+func (m *Map) enter() *sched.Sim {
+	s := sched.Cur
+	if s == nil || s.Aborted() {
+		return nil
+	}
+	if m.st.fresh(s) {
+		m.keys, m.vals = nil, nil
+		m.vc = make([]uint32, s.NumTasks())
+	}
+	s.Yield(sched.KOther, m.st.id)
+	if s.Aborted() {
+		return nil
+	}
+	me := s.CurTask()
+	sched.JoinVC(me.VC, m.vc)
+	sched.JoinVC(m.vc, me.VC)
+	me.VC[me.ID]++
+	return s
+}
+
+func (m *Map) find(k interface{}) int {
+	for i := range m.keys {
+		if m.keys[i] == k {
+			return i
+		}
+	}
+	return -1
+}
+
+// Load returns the value stored for key.
+func (m *Map) Load(key interface{}) (interface{}, bool) {
+	m.enter()
+	if i := m.find(key); i >= 0 {
+		return m.vals[i], true
+	}
+	return nil, false
+}
+
+// Store sets the value for key.
+func (m *Map) Store(key, value interface{}) {
+	m.enter()
+	if i := m.find(key); i >= 0 {
+		m.vals[i] = value
+		return
+	}
+	m.keys = append(m.keys, key)
+	m.vals = append(m.vals, value)
+}
+
+// LoadOrStore returns the existing value or stores the given one.
+func (m *Map) LoadOrStore(key, value interface{}) (interface{}, bool) {
+	m.enter()
+	if i := m.find(key); i >= 0 {
+		return m.vals[i], true
+	}
+	m.keys = append(m.keys, key)
+	m.vals = append(m.vals, value)
+	return value, false
+}
+
+// LoadAndDelete deletes the value for key, returning the previous value.
+func (m *Map) LoadAndDelete(key interface{}) (interface{}, bool) {
+	m.enter()
+	if i := m.find(key); i >= 0 {
+		v := m.vals[i]
+		m.keys = append(m.keys[:i], m.keys[i+1:]...)
+		m.vals = append(m.vals[:i], m.vals[i+1:]...)
+		return v, true
+	}
+	return nil, false
+}
+
+// Delete deletes the value for key.
+func (m *Map) Delete(key interface{}) { m.LoadAndDelete(key) }
+
+// Swap stores value and returns the previous one.
+func (m *Map) Swap(key, value interface{}) (interface{}, bool) {
+	m.enter()
+	if i := m.find(key); i >= 0 {
+		old := m.vals[i]
+		m.vals[i] = value
+		return old, true
+	}
+	m.keys = append(m.keys, key)
+	m.vals = append(m.vals, value)
+	return nil, false
+}
+
+// CompareAndSwap swaps old for new if the stored value equals old.
+func (m *Map) CompareAndSwap(key, old, new interface{}) bool {
+	m.enter()
+	if i := m.find(key); i >= 0 && m.vals[i] == old {
+		m.vals[i] = new
+		return true
+	}
+	return false
+}
+
+// CompareAndDelete deletes the entry if its value equals old.
+func (m *Map) CompareAndDelete(key, old interface{}) bool {
+	m.enter()
+	if i := m.find(key); i >= 0 && m.vals[i] == old {
+		m.keys = append(m.keys[:i], m.keys[i+1:]...)
+		m.vals = append(m.vals[:i], m.vals[i+1:]...)
+		return true
+	}
+	return false
+}
+
+// Range calls f for each entry in insertion order.
+func (m *Map) Range(f func(key, value interface{}) bool) {
+	m.enter()
+	ks := append([]interface{}(nil), m.keys...)
+	vs := append([]interface{}(nil), m.vals...)
+	for i := range ks {
+		if !f(ks[i], vs[i]) {
+			return
+		}
+	}
+}
 
 // Locker is sync.Locker.
 type Locker interface {
